@@ -109,7 +109,14 @@ def run_shard(shard: Dict[str, Any], rep: Report) -> None:
     runner = Runner(shard["env"], shard["cfg"])
     rng = shard_rng(seed, shard["id"])
     mon = ProtocolMonitor(runner, rep)
-    pols = POLS if tier == "quick" else POLS * 3
+    pols = list(POLS if tier == "quick" else POLS * 3)
+    from jmon.modelapi import ModelCtx
+
+    P = ModelCtx(shard["env"], shard["cfg"], rep, env=runner.env, rng=rng)
+    extra = P.call("policies") if P.has("policies") else {}
+    for nm in ("complete", "collide", "frontier"):
+        if nm in extra:
+            pols.extend([extra[nm]] * (1 if tier == "quick" else 3))
     cap = step_cap(shard["env"], shard["cfg"], tier)
     for ep, pol in enumerate(pols):
         key, kint = key_for(seed, shard["id"], ep)
